@@ -607,6 +607,7 @@ class Interp(object):
             def __init__(self):
                 self.calls = 0
                 self.log = []
+                self.objs = []
                 self.threads = []
                 self.fails = []
                 self.exn = e
@@ -615,6 +616,7 @@ class Interp(object):
                 n = self.calls
                 self.calls += 1
                 self.log.append(dict(message))
+                self.objs.append(message)          # a destination may keep the objects it is given (list.append does)
                 self.threads.append(threading.get_ident())
                 bad = behave_py(b, n, message, interp)
                 self.fails.append(bool(bad))
@@ -995,7 +997,10 @@ class Interp(object):
             import copy
             from eliot import Logger
             self.g(c)
-            d = self.fields(fs)
+            # the application keeps ONE dictionary for its raw writes and refills it before each of them
+            d = self.raw_shared = getattr(self, "raw_shared", {})
+            d.clear()
+            d.update(self.fields(fs))
             before = dict(d)
             serializer = None if ser is None else self.message_type(t, ser)._serializer
             with self.window("raw", c, decl=ser, logged=fs, t=t):
@@ -1094,6 +1099,12 @@ def _check_renders(self):
                     self.notes.append("render_mismatch:dest%s" % did)
             else:
                 last = m
+    for did, d in self.dests.items():
+        objs = getattr(d, "objs", [])
+        if len({id(o) for o in objs}) != len(objs):
+            self.notes.append("delivered_message_changed:destination %s was handed the same dictionary object for several messages" % did)
+        elif any(dict(o) != c for o, c in zip(objs, d.log)):
+            self.notes.append("delivered_message_changed:a message object kept by destination %s changed after it was delivered" % did)
     for d, snapshot in getattr(self, "app_dicts", []):
         if list(d.keys()) != list(snapshot.keys()) or any(d[k] is not snapshot[k] for k in snapshot):
             self.notes.append("caller_dict_mutated:the dictionary returned by an exception extractor now has keys %r" % sorted(map(str, d.keys())))
